@@ -6,8 +6,8 @@ import re
 from . import core
 
 PROP = 'C20'
-RULE = ('strings: every string of <= L code points over the alphabet {a, space, comma, 1, -, 2-byte, 3-byte, 4-byte} '
-        '(L=4 quick, L=6 thorough) plus seeded random long strings with tabs/newlines; per string all iterator '
+RULE = ('strings: every string of <= L code points over the alphabet {a, space, comma, 1, -, U+0080, U+07FF, U+0800, U+FFFF, U+10000, U+10FFFF} '
+        '(L=4 quick, L=5 thorough) plus seeded random long strings with tabs/newlines; per string all iterator '
         'positions in [-1,n+2], all code-point ranges a<=b in [-1,n+2]^2, split/trim/integer recognition. '
         'ranges: all ordered pairs of ranges with start<=finish in a window ([0,7] quick, [-2,9] thorough), all '
         'point queries, shifts and random merge lists. A case is distinct by its input (string or range pair) and '
@@ -21,7 +21,8 @@ ASSUMPTIONS = [
 EXHAUSTIVE = ['strings of <= L code points over the 8-symbol alphabet', 'range pairs in the window']
 MIN_JUDGED = {'quick': 5000, 'thorough': 100000}
 
-ALPHA = ['a', ' ', ',', '1', '-', 'б', '€', '\U0001F600']
+# boundary code points of every UTF-8 length class: U+0080/U+07FF (2 bytes), U+0800/U+FFFF (3), U+10000/U+10FFFF (4)
+ALPHA = ['a', ' ', ',', '1', '-', '\u0080', '\u07ff', '\u0800', '\uffff', '\U00010000', '\U0010ffff']
 NSHARDS = 32
 
 
@@ -171,7 +172,7 @@ def judge_pair(res, cs, cr):
         bad.append(('dual-before-after', f'IsBefore/IsAfter not dual on {a},{b}'))
     if ev['shares'] != ev_rev['shares']:
         bad.append(('sym-shares', f'SharesBorder not symmetric on {a},{b}'))
-    if 'overlaps' in exp and ev['overlaps'] != ev_rev['overlaps']:
+    if ev['overlaps'] != ev_rev['overlaps']:
         bad.append(('sym-overlaps', f'Overlaps not symmetric on {a},{b}'))
     if a[0] != a[1] and (ev['starts'] or ev['finishes'] or ev['during']) and not ev_rev['contains']:
         bad.append(('sub-contains', f'Starts/Finishes/IsDuring without Contains on {a},{b}'))
@@ -235,7 +236,7 @@ def gen_cases(desc, env):
     kind = desc['kind']
     cases = []
     if kind == 'strings':
-        maxlen = 4 if tier == 'quick' else 6
+        maxlen = 4 if tier == 'quick' else 5
         idx = 0
         for ln in range(0, maxlen + 1):
             for tup in itertools.product(ALPHA, repeat=ln):
@@ -268,11 +269,16 @@ def gen_cases(desc, env):
             cases.append(core.case([{'op': 'range.merge', 'list': lst}], kind='merge', list=lst))
     elif kind == 'random':
         rnd = env.rng('random', desc['i'])
-        alpha = ALPHA + ['\t', '\n', '\r', '0', '9', 'Z', ' ', '∃', '\U00010348', '\x0b', '\x0c']
+        alpha = ['a', ' ', ',', '1', '-', '\t', '\n', '\r', '0', '9', 'Z', '\x0b', '\x0c',
+                 '\u0080', '\u07ff', '\u0800', '\u0fff', '\uffff', '\U00010000', '\U0010ffff', 'б', '€', '∃',
+                 '\U0001F600', '\U00010348']
+        profiles = [None,
+                    [1, 8, 1, 1, 1, 3, 3, 2, 1, 1, 1, 2, 2] + [1] * 12,      # whitespace heavy (trim)
+                    [1, 1, 8, 1, 1] + [1] * 20,                              # comma heavy (split)
+                    [0, 0, 0, 6, 3, 0, 0, 0, 6, 6] + [0] * 15]               # digits and minus (IsInteger)
         for _ in range(60 if tier == 'quick' else 1500):
             ln = rnd.randint(5, 14)
-            weights = rnd.choice([None, [1, 6, 1, 1, 1, 1, 1, 1] + [1] * 11, [1, 1, 6, 1, 1, 1, 1, 1] + [1] * 11,
-                                  [1, 1, 1, 6, 3, 1, 1, 1] + [0] * 7 + [4, 4, 0, 0]])
+            weights = rnd.choice(profiles)
             s = ''.join(rnd.choices(alpha, weights=weights, k=ln))
             cases.append(string_case(s, extra_delims=(' ', '-', '\n')))
     return cases
